@@ -107,8 +107,13 @@ func (r *batchResult) setupFailure() bool {
 	return r.done == nil && strings.Contains(r.stderr, "c12 child:")
 }
 
-// execute runs a batch, judges what came back and, if the child died, finds the crashing input by
-// re-running the cases that were not reported alone.
+// crashChain bounds how many crashing inputs are searched for in one batch before the rest of it is
+// left unexecuted (each one costs a batch run that dies).
+const crashChain = 3
+
+// execute runs a batch, judges what came back and, if the child died, finds the crashing input: the
+// cases that were in flight when it died (the first unreported ones, in batch order) are re-run
+// alone, the remainder of the batch is run again as a batch (depth counts the deaths so far).
 func execute(ctx *core.Ctx, cases []*Case, workers int, depth int) {
 	res := runBatch(ctx, cases, workers)
 	if res.setupFailure() {
@@ -145,16 +150,23 @@ func execute(ctx *core.Ctx, cases []*Case, workers int, depth int) {
 		ctx.Crash("no sequence of bytes from a client or an upstream crashes the process", knownClass(cases[0]), cases[0], detail)
 		return
 	}
-	if depth > 0 || len(missing) == 0 {
+	if len(missing) == 0 {
 		ctx.Crash("no sequence of bytes from a client or an upstream crashes the process", "",
-			map[string]any{"kind": "batch", "cases": cases}, detail+" (not reproduced with single cases)")
+			map[string]any{"kind": "batch", "cases": cases}, detail+" (every case had been reported)")
 		return
 	}
+	// the cases in flight when the child died: as many as it has workers, and a few more for those
+	// whose report was lost with the process
+	nSus := 2*workers + 4
+	if nSus > len(missing) {
+		nSus = len(missing)
+	}
+	suspects, rest := missing[:nSus], missing[nSus:]
 	found := false
 	var mu sync.Mutex
 	var wg sync.WaitGroup
 	sem := make(chan struct{}, 6)
-	for _, c := range missing {
+	for _, c := range suspects {
 		wg.Add(1)
 		sem <- struct{}{}
 		go func(c *Case) {
@@ -175,7 +187,17 @@ func execute(ctx *core.Ctx, cases []*Case, workers int, depth int) {
 	wg.Wait()
 	if !found {
 		ctx.Crash("no sequence of bytes from a client or an upstream crashes the process", "",
-			map[string]any{"kind": "batch", "cases": missing}, detail+" (not reproduced with single cases)")
+			map[string]any{"kind": "batch", "cases": suspects}, detail+" (not reproduced with single cases)")
+	}
+	switch {
+	case len(rest) == 0:
+	case depth+1 >= crashChain:
+		// enough crashing inputs of this batch are on record
+		for range rest {
+			ctx.Count("not-run/after-repeated-crashes")
+		}
+	default:
+		execute(ctx, rest, workers, depth+1)
 	}
 }
 
@@ -207,24 +229,6 @@ func Run(ctx *core.Ctx) {
 	// interleave so that every batch mixes kinds (and the slow ones spread out)
 	nb := ctx.N(6, 12)
 	batches := make([][]*Case, nb)
-	// inputs of a class that is known to kill the process run alone (a few of them; the rest of the
-	// class is set aside: every one of them would take its whole batch down)
-	var alone []*Case
-	{
-		kept := cases[:0:0]
-		for _, c := range cases {
-			if c.Kind == "client" && knownClass(c) == "non-utf8-host" {
-				if len(alone) < ctx.N(4, 12) {
-					alone = append(alone, c)
-				} else {
-					ctx.Count("set-aside/known-crash-class")
-				}
-				continue
-			}
-			kept = append(kept, c)
-		}
-		cases = kept
-	}
 	for i, c := range cases {
 		if c.Kind == "label" {
 			batches[0] = append(batches[0], c) // the label proxy is used sequentially by one child
@@ -251,15 +255,6 @@ func Run(ctx *core.Ctx) {
 				execute(ctx, part, 10, 0)
 			}()
 		}
-	}
-	for _, c := range alone {
-		wg.Add(1)
-		sem <- struct{}{}
-		go func(c *Case) {
-			defer wg.Done()
-			defer func() { <-sem }()
-			execute(ctx, []*Case{c}, 1, 0)
-		}(c)
 	}
 	wg.Wait()
 	ctx.Extra("exhaustive_offsets", "every byte offset (head and body) x FIN/RST for the small replies of families A (plain: cl, chunked, eof; https: cl; thorough tier: also https chunked/eof, intercepted cl/chunked/eof, via upstream) and every offset of a small CONNECT rejection")
